@@ -453,6 +453,7 @@ class Render:
         self.constructs = []   # {scope, pos, keys, kind}
         self.comments = []     # {scope, pos, text}
         self.doc_lines = []    # lines of <%doc> bodies
+        self.events = []       # what the translator-comment logic sees, per scope: cmt / doc / ctlend / construct
         self.nscope = 0
         self.seq(tree, 0, False)
         self.src = "".join(self.parts)
@@ -464,6 +465,7 @@ class Render:
     def construct(self, scope, kind, calls, hidden, **flags):
         c = {"scope": scope, "pos": self.pos, "kind": kind, "keys": [m["key"] for m in calls]}
         self.constructs.append(c)
+        self.events.append({"scope": scope, "pos": self.pos, "kind": "construct", "c": c})
         for m in calls:
             d = dict(m)
             d.update(kind=kind, in_filter=False, hidden=hidden, late=False, lead=0, cidx=len(self.constructs) - 1)
@@ -490,10 +492,13 @@ class Render:
     def r_cmt(self, it, scope, hidden):
         self.w(it["ind"])
         self.comments.append({"scope": scope, "pos": self.pos, "text": it["text"].strip()})
+        self.events.append({"scope": scope, "pos": self.pos, "kind": "cmt", "text": it["text"]})
         self.w("##" + it["sp"] + it["text"] + "\n")
 
     def r_doc(self, it, scope, hidden):
         self.doc_lines += [" ".join(it["lines"])] if it["inline"] else list(it["lines"])
+        self.events.append({"scope": scope, "pos": self.pos, "kind": "cmt",
+                            "text": " ".join(it["lines"]) if it["inline"] else "\n" + "\n".join(it["lines"]) + "\n"})
         if it["inline"]:
             self.w("<%doc>" + " ".join(it["lines"]) + "</%doc>\n")
         else:
@@ -537,7 +542,9 @@ class Render:
         for m in it["more"]:
             line(m["kw"], m["head"])
             self.seq(m["body"], scope, hidden)
-        self.w(it["ind"] + "%" + it["sp"] + "end" + it["kw"] + "\n")
+        self.w(it["ind"])
+        self.events.append({"scope": scope, "pos": self.pos, "kind": "ctlend"})
+        self.w("%" + it["sp"] + "end" + it["kw"] + "\n")
 
     def r_code(self, it, scope, hidden):
         self.w(it["ind"])
@@ -940,6 +947,9 @@ def render_case(case):
             c["pos"] += len(prefix)
         for c in rd.comments:
             c["pos"] += len(prefix)
+        for e in rd.events:
+            if e["kind"] != "construct":     # (construct events share the dict shifted above)
+                e["pos"] += len(prefix)
         src = rd.src
     text = src.replace("\n", "\r\n") if case["crlf"] else src
     data = text if mode == "str" else text.encode(mode.split(":")[1])
@@ -947,6 +957,46 @@ def render_case(case):
 
 
 # --------------------------------------------------------------------------------------------- oracle
+
+def recorded_comment_behaviour(rd, tags):
+    """What the translator-comment logic of extract_nodes *as recorded in known_findings.json* (F-C20-4..7) attaches
+    to every planted call - a transcription of that state machine over the generator's own event list.  It is used
+    for one thing only: a comment mismatch (already established against the ground truth) counts as one of the
+    recorded findings only if it is exactly what the recorded behaviour produces; anything else is a new violation."""
+    pred = {}
+    scopes = {}
+    for e in rd.events:
+        scopes.setdefault(e["scope"], []).append(e)
+    for evs in scopes.values():
+        evs.sort(key=lambda e: e["pos"] if e["kind"] != "construct" else e["c"]["pos"])
+        tc, intc = [], False
+        for e in evs:
+            if e["kind"] == "cmt":
+                pos = e["pos"]
+                line = line_of(rd.src, pos)
+                value = e["text"].strip()
+                lines = [(line + i, l) for i, l in enumerate(value.splitlines())]
+                if intc:
+                    tc += lines
+                else:
+                    for tag in tags:
+                        if value.startswith(tag):
+                            intc = True
+                            tc += lines
+            elif e["kind"] == "ctlend":
+                intc = False
+            else:
+                c = e["c"]
+                line = line_of(rd.src, c["pos"])
+                if tc and tc[-1][0] < line - 1:
+                    tc = []
+                for k in c["keys"]:
+                    pred[k] = [t for _, t in tc]
+                if c["keys"]:
+                    tc = []
+                intc = False
+    return pred
+
 
 def classify_comments(t, got, info, tags, doc_lines=(), truth=None):
     exp = t["comments"]
@@ -996,6 +1046,7 @@ def check_results(flavor, res, truth, info, rd, tags):
     bad = []
     if isinstance(res, tuple) and res and res[0] == "EXC":
         return [("extractor-raises:" + res[1], "the extractor raised " + res[1])]
+    recorded = recorded_comment_behaviour(rd, tags)
     seen = {}
     for (line, fn, payload, comments) in res:
         if flavor == "babel":
@@ -1072,6 +1123,12 @@ def check_results(flavor, res, truth, info, rd, tags):
                 if parts is not None:
                     got_c = parts
         site = classify_comments(t, got_c, info, tags, rd.doc_lines, truth)
+        if site:
+            pred = recorded.get(key)
+            same = (list(comments) == pred) if flavor == "babel" else (comments == (" ".join(pred + [""]) if pred else ""))
+            if pred is not None and not same:
+                site = "comments-deviate-from-recorded-behaviour"
+                got_c = got_c + ["<recorded behaviour would give %r>" % (pred,)]
         if site:
             bad.append((site, "%r (line %d): comments %r, expected %r" % (key, t["line"], got_c, t["comments"]), key))
     return bad
